@@ -315,6 +315,44 @@ func jobC11(c *rt.Ctx) {
 			}
 		}
 	}
+	// boundary results: u = k and u = p - k for k < 64, and u around every limb boundary of both field
+	// layouts with all higher bits set or clear (the final reduction / serialisation of a backend is
+	// exercised where its carry and compare logic has its cases)
+	c.Require("boundary-output")
+	var btargets []*big.Int
+	for k := int64(1); k < 64; k++ {
+		btargets = append(btargets, big.NewInt(k), new(big.Int).Sub(ref.P, big.NewInt(k)))
+	}
+	for _, bit := range []uint{25, 26, 51, 76, 77, 102, 127, 128, 153, 178, 179, 204, 229, 230} {
+		for d := int64(-2); d <= 2; d++ {
+			lo := new(big.Int).Lsh(big.NewInt(1), bit)
+			lo.Add(lo, big.NewInt(d))
+			hi := new(big.Int).Sub(new(big.Int).Lsh(big.NewInt(1), 255), new(big.Int).Lsh(big.NewInt(1), bit))
+			hi.Add(hi, big.NewInt(d))
+			btargets = append(btargets, lo, hi)
+		}
+	}
+	for ti, u := range btargets {
+		if !c.Take() {
+			continue
+		}
+		var order *big.Int
+		for _, ord := range []*big.Int{ref.L, twistL} {
+			if _, z := ref.LadderXZ(ord, u); z.Sign() == 0 {
+				order = ord
+				break
+			}
+		}
+		c.Distinct(fmt.Sprintf("boundary %d", ti), order != nil)
+		if order == nil {
+			c.Class("boundary-output/not-in-prime-subgroup")
+			continue
+		}
+		c.Class("boundary-output")
+		if !sparseOutputCase(c, []byte{0xC4, byte(ti), byte(ti >> 8)}, u, order, "boundary value "+u.Text(16)) {
+			return
+		}
+	}
 	// two-byte results: the same mask at byte i and byte j, zero elsewhere (differences that cancel
 	// when a zero test folds words together with xor instead of or)
 	masks := []int64{1}
@@ -563,7 +601,7 @@ func sparseOutputCase(c *rt.Ctx, tag []byte, target, order *big.Int, what string
 	out, err := X25519(sc, P)
 	c.Step(1)
 	if err != nil || !bytes.Equal(out, want) {
-		c.Violation("C11 generic sparse-output", fmt.Sprintf("X25519(%x, %x): out=%x err=%v; RFC 7748 says %x (%s)", sc, P, out, err, want, what),
+		c.Violation("C11 generic constructed-output", fmt.Sprintf("X25519(%x, %x): out=%x err=%v; RFC 7748 says %x (%s)", sc, P, out, err, want, what),
 			map[string]interface{}{"scalar": ref.Hex(sc), "point": ref.Hex(P), "expected": ref.Hex(want), "observed": ref.Hex(out), "err": fmt.Sprint(err)})
 	}
 	return true
